@@ -286,6 +286,15 @@ func runC17(r *ev.Recorder) {
 		}
 	})
 	r.Count("key_order_keys", ne)
+	// (g) many keys and long values
+	for _, nk := range []int{5, 9, 17, 40} {
+		m := map[string]string{}
+		for i := 0; i < nk; i++ {
+			m[fmt.Sprintf("k%d", (i*7)%nk)] = strings.Repeat(c12Units[i%len(c12Units)], 1+i*13)
+		}
+		one(m, false)
+		one(m, true)
+	}
 	// (f) one tag map changed between renders that share a File (Tag keeps the caller's map):
 	// every render must show the map's CURRENT content, as a fresh File does
 	for _, nf := range []bool{false, true} {
